@@ -537,6 +537,8 @@ def as_bool_term(v):
     return v.dom != z3.EmptySet(v.ksort)
   if isinstance(v, (VObj, VCallable, VModule)):
     return z3.BoolVal(True)
+  if getattr(v, 'kind', '') == 'ddl':
+    return v.dom != z3.EmptySet(KeySort)
   raise EngineError('truth value of %r is not modelled' % (v,))
 
 
